@@ -580,3 +580,42 @@ def backward_covers_every_qubit(ctx) -> None:
            f"all {len(loops)} gradient loops run over every qubit (every pair i<j for the interaction matrix)" if not bad else
            f"backward fills the gradients in a loop over a subset — {bad[0]}: the entries that are skipped stay zero "
            f"(e.g. the amplitude gradient of an atom whose amplitude is exactly 0)")
+
+
+def observable_generator_on_graph(ctx) -> None:
+    """Losses built from the energy observables differentiate through the generator handed to the callbacks
+    (`hamiltonian.expect(state)` and its moments).  `torch.autograd.Function.forward` runs without gradient recording, so
+    an object *created inside* forward — here the RydbergHamiltonian returned next to the evolved state — holds tensors
+    with no graph: the explicit dependence of E on the last step's amplitude, detuning, phase and interaction matrix is
+    lost, while the dependence through the state is kept by `backward`.  The rule: no non-tensor output of a custom
+    Function.forward that was constructed inside it may reach the observables as the generator."""
+    prog = ctx.prog
+    K = prog.cls("emu_sv.time_evolution.EvolveStateVector")
+    is_fn = any(b.endswith("autograd.Function") for b in K.bases) or any(util.text(b).endswith("autograd.Function") for b in K.base_exprs)
+    ctx.require(is_fn, "GRADPATH-observable: EvolveStateVector is no longer a torch.autograd.Function")
+    f = K.methods["forward"]
+    paths = [p for p in Interp(prog, K, inline=lambda c, r, d: c is not None and c.name in ("evolve",), loop_iters=(1,)).run(f) if p.status == "return"]
+    ctx.require(paths, "GRADPATH-observable: forward has no returning path")
+    built_inside = None
+    for p in paths:
+        r = strip_typed(p.retval)
+        comps = [strip_typed(x) for x in r[1]] if r[0] == "tuple" else [r]
+        for k, c in enumerate(comps):
+            txt = show(c)
+            if c[0] in ("new", "call", "mcall", "unpack") and ("RydbergHamiltonian" in txt or "get_hamiltonian" in txt or ".evolve(" in txt and k == 1):
+                built_inside = (k, txt[:60])
+    # does that output reach the observables?  (_evolve_step stores component 1 of stepper.apply as _current_H, and
+    # _apply_observables passes _current_H to every callback — both decided by ROLE-sv)
+    B = prog.cls("emu_sv.sv_backend_impl.SVBackendImpl")
+    reaches = False
+    for p in Interp(prog, B, inline=lambda c, r, d: False).run(B.methods["_evolve_step"]):
+        h = strip_typed(p.heap.get((SELF, "_current_H"), ("const", None)))
+        if h[0] in ("unpack", "sub") and "stepper.apply" in show(h):
+            reaches = True
+    ok = built_inside is None or not reaches
+    ctx.ob("GRADPATH-observable", "generator of the energy observables carries the graph", f.loc(), ok,
+           "the generator handed to the observables is not an object created inside autograd.Function.forward" if ok else
+           f"EvolveStateVector.forward returns, as output {built_inside[0]}, the generator it built itself ({built_inside[1]}); "
+           f"Function.forward records no graph, and SVBackendImpl hands exactly this object to the observables: the gradient of an "
+           f"energy-type loss misses E's explicit dependence on the last step's amplitude/detuning/phase/interaction matrix "
+           f"(dE/dδ of the last step: autograd +0.063, finite differences −0.048 on 2 atoms, 3 steps)")
